@@ -21,6 +21,7 @@ hint that TLC verifies (and replaces by a search over all faces when it does not
 import importlib
 import itertools
 import math
+import os
 import sys
 from fractions import Fraction
 
@@ -35,6 +36,7 @@ CFG = "INIT Init\nNEXT Next\nINVARIANT Report\nINVARIANT RefSane\nCHECK_DEADLOCK
 DMAX = 256          # largest denominator a returned coordinate may snap to (single plane: true bound is 24)
 DMAX_PAIR = 4096    # two successive planes multiply the denominators
 KMAX = 1000         # largest common denominator of one record (quadratic terms in TLC's 32-bit integers)
+ROUND = 24000       # records per round of batch validation (1500 per TLC shard)
 KCAP = 128          # capped slices (cubic terms in TLC) only where the crossings' denominators stay below this
 TOL = 1e-9
 ENGINE_MODULES = (("earcut", "mapbox_earcut"), ("triangle", "triangle"), ("manifold", "manifold3d"))
@@ -512,7 +514,14 @@ def main(argv):
     descs = [c.pop("desc") for c in cases]
     if len(cases) < 2000:
         raise MachineryError("too few cases")
-    rejects, states, wall = tlc.validate_batches("c11", "Section", cases, CFG, timeout=3000)
+    # 16 TLC shards run side by side: bound each JVM's heap and the number of records it holds at once
+    os.environ.setdefault("JAVA_TOOL_OPTIONS", "-Xmx2g")
+    rejects, states, wall = {}, 0, 0.0
+    for lo in range(0, len(cases), ROUND):
+        r, st, w = tlc.validate_batches("c11", "Section", cases[lo:lo + ROUND], CFG, timeout=3000)
+        rejects.update(r)
+        states += st
+        wall += w
     bykind, byapi, byengine, ks = {}, {}, {}, {}
     nonempty_sections = nonempty_halves = empty_halves = cut_slices = 0
     for c, d in zip(cases, descs):
